@@ -407,4 +407,82 @@ func runC13(w *mc.Worker) {
 			})
 		})
 	})
+
+	// several entries at once: (account, key) pairs that collide under a naive joined key, read back
+	// through several meta() variables of one vars block, in both declaration orders
+	w.Stage("roundtrip-pairs", "4 (account, key) pairs that collide when joined with ':' ((u:1, k), (u, 1:k), (u, k), (u:1, 1:k)), written with distinct numbers by one script and read back by a second one through 2..4 meta() variables in every declaration order", func() {
+		pairs := [][2]string{{"u:1", "k"}, {"u", "1:k"}, {"u", "k"}, {"u:1", "1:k"}}
+		w.Outer("roundtrip-pairs/order", 0, func(o *mc.Explorer) {
+			// an ordered selection of 2..4 distinct pairs
+			n := 2 + o.Choose(3)
+			var sel []int
+			used := map[int]bool{}
+			for len(sel) < n {
+				i := o.Choose(len(pairs))
+				if used[i] {
+					return
+				}
+				used[i] = true
+				sel = append(sel, i)
+			}
+			if !w.Mine(fmt.Sprint("pairs", sel)) {
+				return
+			}
+			w.Owned()
+			w.Inner(0, func(in *mc.Explorer) {
+				first := ""
+				for i, p := range pairs {
+					first += fmt.Sprintf("set_account_meta ( @%s , \"%s\" , %d )\n", p[0], p[1], 5+2*i)
+				}
+				pr1, ok := parseQuiet(first)
+				if !ok {
+					w.Count("harness_errors", 1)
+					return
+				}
+				o1 := RunReal(pr1, nil, env.New(env.Exact, nil, nil), nil)
+				if o1.Err != nil || o1.Panic != "" {
+					w.Violation("C13.roundtrip-write:pairs", "writing several metadata entries failed", len(first), Case{Script: first, Observed: o1.Class()})
+					return
+				}
+				meta := env.Meta{}
+				for a, m := range o1.AcctMeta {
+					meta[a] = map[string]string{}
+					for k, v := range m {
+						meta[a][k] = v
+					}
+				}
+				second := "vars {"
+				for j, i := range sel {
+					second += fmt.Sprintf(" number $v%d = meta ( @%s , \"%s\" )", j, pairs[i][0], pairs[i][1])
+				}
+				second += " }\n"
+				for j := range sel {
+					second += fmt.Sprintf("set_tx_meta ( \"r%d\" , $v%d )\n", j, j)
+				}
+				pr2, ok := parseQuiet(second)
+				if !ok {
+					w.Count("harness_errors", 1)
+					return
+				}
+				o2 := RunReal(pr2, nil, env.New(env.Exact, nil, meta), nil)
+				key := "pairs|" + second
+				w.Eval(key, true, "pairs:"+o2.Class())
+				c := Case{Script: second, Meta: meta, Extra: map[string]any{"first_script": first}}
+				if o2.Err != nil || o2.Panic != "" {
+					c.Observed = o2.Class()
+					w.Violation("C13.roundtrip-read:pairs", "entries written by one script cannot be read back together by another", len(second), c)
+					return
+				}
+				for j, i := range sel {
+					want := fmt.Sprint(5 + 2*i)
+					if o2.TxMeta[fmt.Sprintf("r%d", j)] != want {
+						c.Observed = fmt.Sprintf("$v%d = meta(@%s, %q) read %s, written %s", j, pairs[i][0], pairs[i][1], o2.TxMeta[fmt.Sprintf("r%d", j)], want)
+						w.Violation("C13.roundtrip-value:pairs", "a metadata entry read back next to others is not the value written under that account and key", len(second), c)
+						return
+					}
+				}
+				w.Sample("pairs", c)
+			})
+		})
+	})
 }
